@@ -83,6 +83,30 @@ CLAIMED = {
          "order-preserving steps only, that function names are copied (init -> __init__), that operator definitions map to the right dunder both ways, "
          "that __init__ is self + class arguments with parent calls first, and that no class member is dropped or ordered by hash.",
          "That __init__ bodies perform the right assignments for every program is not decided.", "5/C17"),
+ "C04": ("traversal census of the constraint generator + constraint census + dispatch totality + operator->protocol-method agreement through the Node->NodeTy->Core->printer chain + strict-lookup Ok-path rule on MIR + stub signatures against a frozen CPython table",
+         "Decides the structural necessary conditions of soundness: every AST child the generator takes apart is visited, delegated or rejected "
+         "(317 rows; the unvisited ones are reviewed, 4 are genuine findings), every variant is dispatched to a handler arm, every operator is typed by "
+         "the protocol method of the Python operator it is printed as with the same receiver, literals by their Python class, an unresolved identifier, "
+         "function, class, field or method is an error on every CFG path on which the search found nothing, access constraints look up every member "
+         "of a union, fields are definitely assigned, and every bundled stub signature (about 100 methods) is true of CPython 3.10 (existence, "
+         "accepted argument classes, result classes).",
+         "Soundness of unification itself (substitution, Any, generics) is not decided. 15 known-finding keys (D19, D20, D23, D27, D28, D30, D31) are listed with inputs.", "5/C04"),
+ "C05": ("sibling agreement of the four arity matchers + constraint census with operand roles against a reviewed table + environment field-flow of return_type/is_expr/in_fun + direction of unify_type",
+         "Decides: every formal/actual matcher constrains pairs, rejects extra arguments unconditionally and missing ones unless defaulted; every one of "
+         "the 63 `parent >= child` constraint sites has the reviewed direction and operand roles (a removed site or a swapped pair is reported); the "
+         "declared return type and the expression flag are handed down unchanged to every nested construct and set exactly for a function body; the "
+         "comparison is parent.is_superset_of(child).",
+         "Does not decide that unification propagates the constraints soundly.", "5/C05"),
+ "C06": ("decision-table extraction of the nullable layer of TrueName::is_superset_of + reader census of the nullable flag + must-assign set of None/undefined constraints",
+         "Decides the nullable clause on every valuation of the extracted decision table (T? accepts T and None; T rejects T? and None unless equal), "
+         "that every reader of the is_nullable flag is reviewed, that `None` literals and `?` types set the flag at the reviewed sites, and that "
+         "undefined constraints are generated for None.",
+         "Flow-sensitive narrowing (`if x != None`) is not modelled by the checker at all and is not decided.", "5/C06"),
+ "C20": ("decision-table extraction + exhaustive small-model check of the extracted relation over all 29 class preorders on three classes + shape rules for the union and class layers",
+         "Decides for the nullable layer that the extracted relation is reflexive and transitive on {a,b,c}x{plain,nullable}+None for every class order "
+         "(a counter-example to transitivity needs three types, so this is complete for the layer), that the union layer is for-all/exists over "
+         "members, that has_parent is reflexive, has Any as top and otherwise searches ancestors only, and that unions are hash sets joined by set union.",
+         "Transitivity through the parent graph with generics and the tuple special case are not decided (shape rules fail closed on any rewrite).", "5/C20"),
 }
 NA_REASON_PENDING = "check under construction in this round; see DESIGN.md section 5 for the planned rules"
 
